@@ -250,6 +250,10 @@ class Enumerator(object):
             return self.block(node, path)
         if k == 'Match':
             node = H.nest_tuple_match(H.nest_result_match(node))
+        if k == 'Match' and S.is_default_match(node) and not self.has_ctl(node['scrut']):
+            t = self.leaf(node, path)
+            path.value = t
+            return [path]
         if (k == 'Match' and S.is_propagate_match(node) and not any(self.has_ctl(a['body']) for a in node['arms'] if not self.ev.block_diverges(a['body']))
                 and not self.has_ctl(node['scrut'])) or (k == 'If' and S.is_propagate_iflet(node) and not self.has_ctl(node['cond']['init'])):
             # the explicit spelling of `?`: one path, read like the operator form
